@@ -14,6 +14,10 @@ def setup():
     props = [c["property_id"] for c in claims["checks"]]
     targets = []
     for p in props:
+        mod = importlib.import_module("harness." + p.lower())
+        if hasattr(mod, "pre_build"):
+            mod.pre_build()
+    for p in props:
         targets += ["theories/%s/Corr.vo" % p, "theories/Props/%s.vo" % p]
     ok, log = vlib.make(targets)
     print(log[-3000:])
